@@ -5,7 +5,7 @@ M: spec/MD5.tla (RFC 1321 over 16-bit halves, validated against the RFC test sui
 G: drv_login calls the real login_calculate() for passwords of every length 0..40 (arbitrary non-NUL bytes, all-0xFF,
    letters) and challenges {0, 1, -1, 2^31-1, -2^31, byte-order patterns, random}, plus differential pairs (one byte
    >= 32 changed / one of the first 32 changed / one challenge bit flipped); real client+server sessions in raw mode
-   with various passwords (clean paths, and paths that drop / duplicate / delay datagrams during the handshake so that
+   with various passwords given with -P or in the environment (clean paths, and paths that drop / duplicate / delay datagrams during the handshake so that
    login messages are re-sent) give the wire events (DNS login message, raw login frame seed+1, raw reply seed-1).
 T: TLC evaluates every event against the TLA+ MD5 (an implementation independent of src/md5.c and src/login.c).
 """
@@ -24,7 +24,8 @@ from checks import common, funcs
 
 def wire_events(arg):
     import runs
-    seed, pw, lossy = arg
+    seed, pw, lossy = arg[:3]
+    via = arg[3] if len(arg) > 3 else "arg"
     evs = []
     sess = None
     try:
@@ -34,7 +35,7 @@ def wire_events(arg):
             # late copies of earlier answers arrive while the client waits for the raw login reply
             relay = scen.Relay(seed, p_drop=0.25, p_dup=0.3, p_delay=0.25, max_delay=1800000, fault_from=0, fault_to=10 ** 13)
         sess = scen.Session(runs.bdir(), seed=seed, raw=True, qtype=["NULL", "TXT", "CNAME"][seed % 3], password=pw,
-                            tag="lg%d" % seed, relay=relay)
+                            tag="lg%d" % seed, relay=relay, pw_via=via)
         sess.handshake(limit=120_000_000)
         w = sess.w
         chal = {}
@@ -143,6 +144,10 @@ def main(tier):
     wires = vcheck.parallel(wire_events, [(seed * 50 + i, pw, False) for i, pw in enumerate(pws)] +
                             [(seed * 50 + 1000 + 10 * i + k, pw, True) for i, pw in enumerate(pws)
                              for k in range(4 if tier == "quick" else 12)])
+    # the programs' other way of being given the password: the environment (IODINE_PASS / IODINED_PASS), client only,
+    # server only and both
+    wires += vcheck.parallel(wire_events, [(seed * 50 + 5000 + 3 * i + k, pw, False, via) for i, pw in enumerate(pws)
+                                           for k, via in enumerate(["env", "cenv", "senv"])])
     wires += vcheck.parallel(reuse_events, [(seed * 50 + 3000 + i, pw) for i, pw in enumerate(pws[:4 if tier == "quick" else 20])])
     wpath = os.path.join(vcheck.scratch(), "wire-%d.ndjson" % os.getpid())
     nw = 0
